@@ -2,7 +2,7 @@
    each followed by Print Assumptions; Examples show that hypotheses are satisfiable. *)
 From Coq Require Import ZArith List Bool PArith String.
 From Coq Require Import Sorting.Permutation.
-From C08 Require Import Model Proofs ProofsKind ProofsTrans ProofsTrans2 ProofsUnion ProofsMeet ProofsMeetComm ProofsJoin ProofsFuel ProofsKey Statement.
+From C08 Require Import Model Proofs ProofsKind ProofsTrans ProofsTrans2 ProofsUnion ProofsMeet ProofsMeetComm ProofsJoin ProofsFuel ProofsKey ProofsF2 ProofsF2Sound ProofsF2Comp ProofsF2Eq ProofsF2Trans ProofsF2Union Statement.
 From Gen Require Import SubtypeKind.
 Import ListNotations.
 
@@ -222,6 +222,68 @@ Theorem subtype_kind_key_table : key_table_ok = true.
 Proof. exact key_table. Qed.
 Print Assumptions subtype_kind_key_table.
 
+(* ================================================================ fragment F2 (Model.frag2)
+   None, Never, literals of non-generic classes, generic instances C[args] (declared arity, per-parameter variance
+   Inv/Cov/Contra, arguments again in F2, unbounded nesting) of non-protocol classes, bool/enums and their literals with the
+   literal-contraction rule of _is_subtype, promotions, flat non-empty unions of such atoms.  Kinds: is_subtype (any flags but ignore_type_params) and is_proper_subtype with
+   ignore_promotions (kind_ok); wf_gen = coherence of generic bases + variance compatibility, evaluated on the real table. *)
+
+(* transitivity on F2 for all types NOT in family X2 (lits_ok t = true): X2 = types containing a literal of bool / an enum
+   whose value is not a declared member or whose class has fewer than two distinct members -- the family of the
+   counterexample subtype_trans_refuted (single-member enum vs its literal).  wf_contr: in the class table a class
+   below bool/an enum is one itself and proper bool/enum ancestors (enum.Enum) have no members; evaluated on the real table. *)
+Theorem subtype_trans_F2 : forall ct, wf_ct ct = true -> wf_gen ct = true -> wf_contr ct = true ->
+  forall k a b c, k_notparams k = false -> kind_ok k = true ->
+  frag2 ct a = true -> frag2 ct b = true -> frag2 ct c = true ->
+  lits_ok ct a = true -> lits_ok ct b = true -> lits_ok ct c = true ->
+  forall n m, sub ct no_cache n k a b = Some true -> sub ct no_cache m k b c = Some true ->
+  forall q y, sub ct no_cache q k a c = Some y -> y = true.
+Proof. exact sub_trans_F2. Qed.
+Print Assumptions subtype_trans_F2.
+
+(* make_simplified_union on F2 atoms outside family X2 (generic instances, bool/enum literals: the two passes of
+   _remove_redundant_union_items with the order-sensitive literal-fallback shortcut, then the literal contraction): the
+   result is in F2, equivalent to the plain union, and equivalent to the result for any permutation of the items *)
+Theorem simplified_union_equiv_F2 : forall ct, wf_ct ct = true -> wf_gen ct = true -> wf_contr ct = true ->
+  forall n n' items items' u u',
+  items <> [] -> forallb (good ct) items = true -> Permutation items items' ->
+  make_simplified_union ct n items = Some u -> make_simplified_union ct n' items' = Some u' ->
+  frag2 ct u = true /\
+  forall k, k_notparams k = false -> kind_ok k = true -> forall m,
+    trueish (sub ct no_cache m k u (TUnion items)) /\ trueish (sub ct no_cache m k (TUnion items) u) /\
+    trueish (sub ct no_cache m k u u') /\ trueish (sub ct no_cache m k u' u).
+Proof. exact simplified_union_equiv_F2_thm. Qed.
+Print Assumptions simplified_union_equiv_F2.
+
+(* answers on F2 only depend on the Type.__eq__ classes of the two types (UnionType.__eq__ = set equality of items) *)
+Theorem eq_invariant_F2 : forall ct, wf_ct ct = true ->
+  forall k l r l' r', k_notparams k = false -> kind_ok k = true ->
+  frag2 ct l = true -> frag2 ct r = true -> frag2 ct l' = true -> frag2 ct r' = true ->
+  ty_eqb l l' = true -> ty_eqb r r' = true ->
+  forall n m x y, sub ct no_cache n k l r = Some x -> sub ct no_cache m k l' r' = Some y -> x = y.
+Proof. exact eq_invariant2. Qed.
+Print Assumptions eq_invariant_F2.
+
+(* cache_transparent on F2 WITHOUT the union-free restriction: the lookup/record/reset machine, with keys compared by
+   Type.__eq__, never changes an answer when the recorded Instance keys are in F2 *)
+Theorem cache_transparent_F2 : forall ct, wf_ct ct = true -> forall fuel ops, Forall (op_ok2 ct) ops ->
+  Forall2 (fun a b => forall x y, a = Some x -> b = Some y -> x = y)
+          (run_with_cache ct fuel empty_cache ops) (run_uncached ct fuel ops).
+Proof. intros ct Hwf fuel ops H. exact (run_cache_agree2 ct Hwf fuel ops empty_cache (cache_ok2_empty ct) H). Qed.
+Print Assumptions cache_transparent_F2.
+
+(* soundness and completeness of the subtype function w.r.t. the explicit order LE on F2 *)
+Theorem subtype_characterised_F2 : forall ct, wf_ct ct = true ->
+  forall k l r, k_notparams k = false -> kind_ok k = true -> frag2 ct l = true -> frag2 ct r = true ->
+  (forall n, sub ct no_cache n k l r = Some true -> LE ct (k_nopromo k) l r) /\
+  (LE ct (k_nopromo k) l r -> forall m y, sub ct no_cache m k l r = Some y -> y = true).
+Proof.
+  intros ct Hwf k l r Kn Kk Fl Fr. split.
+  - intros n H. exact (sub_sound2 ct Hwf no_cache (Hlk0 ct) n k l r Kn Kk Fl Fr H).
+  - intros L m. exact (sub_complete2 ct Hwf no_cache (Hlk0 ct) _ l r L Fl Fr k eq_refl Kn Kk m).
+Qed.
+Print Assumptions subtype_characterised_F2.
+
 (* ---------------------------------------------------------------- hypotheses are satisfiable *)
 Local Open Scope positive_scope.
 Definition ex_cls (mro : list cid) (vs : list variance) (bases : list cid) (am : list (cid * list aspec))
@@ -263,6 +325,21 @@ Example ex_laws_defined :
   meet_types ex_ct 10%nat (TUnion [TInst 2 []; TNone]) (TInst 3 []) = Some (TInst 2 [])
   /\ make_simplified_union ex_ct 10%nat [TLit 2 1%Z; TInst 2 []; TNone] = Some (TUnion [TInst 2 []; TNone])
   /\ make_simplified_union ex_ct 10%nat [TNone; TInst 2 []; TLit 2 1%Z] = Some (TUnion [TNone; TInst 2 []]).
+Proof. vm_compute. repeat split; reflexivity. Qed.
+(* F2: hypotheses satisfiable, with generic instances, variance, promotion and nested unions *)
+Example ex_F2 : wf_gen ex_ct = true
+  /\ frag2 ex_ct (TInst 7 [TLit 2 1%Z]) = true /\ frag2 ex_ct (TInst 6 [TUnion [TInst 3 []; TNone]]) = true
+  /\ is_subtype ex_ct 10%nat (TInst 7 [TLit 2 1%Z]) (TInst 6 [TInst 2 []]) = Some true
+  /\ is_subtype ex_ct 10%nat (TInst 6 [TInst 2 []]) (TInst 6 [TUnion [TInst 3 []; TNone]]) = Some true
+  /\ is_subtype ex_ct 10%nat (TInst 7 [TLit 2 1%Z]) (TInst 6 [TUnion [TInst 3 []; TNone]]) = Some true
+  /\ ty_eqb (TInst 6 [TUnion [TInst 3 []; TNone]]) (TInst 6 [TUnion [TNone; TInst 3 []; TNone]]) = true.
+Proof. vm_compute. repeat split; reflexivity. Qed.
+(* F2 with bool: bool <: Literal[True] | Literal[False] <: int | None, and the chain closes *)
+Example ex_F2_bool : wf_contr ex_ct = true
+  /\ frag2 ex_ct (TUnion [TLit 5 1%Z; TLit 5 0%Z]) = true /\ lits_ok ex_ct (TUnion [TLit 5 1%Z; TLit 5 0%Z]) = true
+  /\ is_subtype ex_ct 10%nat (TInst 5 []) (TUnion [TLit 5 1%Z; TLit 5 0%Z]) = Some true
+  /\ is_subtype ex_ct 10%nat (TUnion [TLit 5 1%Z; TLit 5 0%Z]) (TUnion [TInst 2 []; TNone]) = Some true
+  /\ is_subtype ex_ct 10%nat (TInst 5 []) (TUnion [TInst 2 []; TNone]) = Some true.
 Proof. vm_compute. repeat split; reflexivity. Qed.
 (* a sound, non-empty cache and an admissible op sequence with a hit *)
 Example ex_ops_ok : Forall op_ok [Query K_sub (TInst 5 []) (TInst 3 []); Reset; Query K_sub (TInst 5 []) (TInst 3 []);
